@@ -614,15 +614,14 @@ def r6(ctx, rep):
     f = syn.fn("gen_expr::process_null", crate="prqlc")
     # if name == "std.eq" {.. IsNull ..} else if name == "std.ne" {.. IsNotNull ..}
     got = {}
-    for n in walk(f["body"]):
-        if n.get("k") == "if" and n["c"].get("k") == "bin" and n["c"]["op"] == "==" and show(n["c"]["lhs"]) == "name":
-            nm = lit_val(n["c"]["rhs"])
-            te = tail_expr(n["t"])
-            ctor = None
-            for c in walk(te) if te else []:
-                if c.get("k") == "call" and show(c["f"]).startswith("sql_ast::Expr::Is"):
-                    ctor = last_seg(show(c["f"]))
-            got[nm] = ctor
+    prm = [p_["name"] for p_ in f.get("params", []) if isinstance(p_, dict) and "str" in (p_.get("ty") or "")] or ["name"]
+    for nm, branch in tables.string_dispatch(f["body"], prm[0]).items():
+        te = tail_expr(branch) if branch.get("k") == "block" else branch
+        ctor = None
+        for c in walk(te) if te else []:
+            if c.get("k") == "call" and show(c["f"]).startswith("sql_ast::Expr::Is"):
+                ctor = last_seg(show(c["f"]))
+        got[nm] = ctor
     for nm, want in P["null_tests"].items():
         rep.check(got.get(nm) == want, f"process_null:{nm}", f"process_null maps `{nm}` to {got.get(nm)}, expected {want}", file=f["file"], line=f["l"], fn=f["path"])
     # operand selection: the non-null one
